@@ -17,6 +17,8 @@ import (
 	"google.golang.org/protobuf/reflect/protodesc"
 	"google.golang.org/protobuf/reflect/protoreflect"
 	"google.golang.org/protobuf/reflect/protoregistry"
+	"google.golang.org/protobuf/types/descriptorpb"
+	"google.golang.org/genproto/googleapis/api/annotations"
 
 	"verif/sim/core"
 )
@@ -35,6 +37,82 @@ type BackendSpec struct {
 type svcProvider struct {
 	mu         sync.Mutex
 	advertised []string
+	schema     int // 0/1: the descriptors as generated; 2: a redeployed version (see schemaV2)
+}
+
+func (p *svcProvider) setSchema(v int) {
+	p.mu.Lock()
+	p.schema = v
+	p.mu.Unlock()
+}
+
+func (p *svcProvider) schemaVersion() int {
+	p.mu.Lock()
+	defer p.mu.Unlock()
+	if p.schema == 0 {
+		return 1
+	}
+	return p.schema
+}
+
+// schemaV2 is api/test.proto as a redeployed backend would describe it: the
+// HTTP binding of Messaging.UpdateMessageBody (a method no probe uses) moved
+// from PATCH /v1/messages/{message_id}/body to PATCH /v2/messages/{message_id}/body2.
+var schemaV2File, schemaV2Files = func() (protoreflect.FileDescriptor, *protoregistry.Files) {
+	d, err := protoregistry.GlobalFiles.FindDescriptorByName("larking.testpb.Messaging")
+	if err != nil {
+		panic(err)
+	}
+	fdp := protodesc.ToFileDescriptorProto(d.ParentFile())
+	done := false
+	for _, s := range fdp.Service {
+		if s.GetName() != "Messaging" {
+			continue
+		}
+		for _, m := range s.Method {
+			if m.GetName() != "UpdateMessageBody" {
+				continue
+			}
+			opts := proto.Clone(m.Options).(*descriptorpb.MethodOptions)
+			rule := proto.Clone(proto.GetExtension(opts, annotations.E_Http).(*annotations.HttpRule)).(*annotations.HttpRule)
+			rule.Pattern = &annotations.HttpRule_Patch{Patch: "/v2/messages/{message_id}/body2"}
+			proto.SetExtension(opts, annotations.E_Http, rule)
+			m.Options = opts
+			done = true
+		}
+	}
+	if !done {
+		panic("sim: Messaging.UpdateMessageBody not found")
+	}
+	fd, err := protodesc.NewFile(fdp, protoregistry.GlobalFiles)
+	if err != nil {
+		panic(err)
+	}
+	files := &protoregistry.Files{}
+	if err := files.RegisterFile(fd); err != nil {
+		panic(err)
+	}
+	return fd, files
+}()
+
+// schemaResolver answers reflection lookups with the version of the
+// descriptors the backend currently runs.
+type schemaResolver struct{ p *svcProvider }
+
+func (r schemaResolver) FindFileByPath(path string) (protoreflect.FileDescriptor, error) {
+	if r.p.schemaVersion() == 2 && path == schemaV2File.Path() {
+		return schemaV2File, nil
+	}
+	return protoregistry.GlobalFiles.FindFileByPath(path)
+}
+
+func (r schemaResolver) FindDescriptorByName(name protoreflect.FullName) (protoreflect.Descriptor, error) {
+	if r.p.schemaVersion() == 2 {
+		if d, err := schemaV2Files.FindDescriptorByName(name); err == nil {
+			return d, nil
+		}
+	}
+	return protoregistry.GlobalFiles.FindDescriptorByName(name)
 }
 
 func (p *svcProvider) GetServiceInfo() map[string]grpc.ServiceInfo {
@@ -168,7 +246,7 @@ func (v *verboseReflection) ServerReflectionInfo(stream rpb.ServerReflection_Ser
 				fileResp(d.ParentFile(), nil)
 			}
 		case *rpb.ServerReflectionRequest_FileByFilename:
-			fileResp(protoregistry.GlobalFiles.FindFileByPath(r.FileByFilename))
+			fileResp((schemaResolver{v.provider}).FindFileByPath(r.FileByFilename))
 		default:
 			resp.MessageResponse = &rpb.ServerReflectionResponse_ErrorResponse{ErrorResponse: &rpb.ErrorResponse{ErrorCode: 12, ErrorMessage: "not supported by the simulated backend"}}
 		}
@@ -205,7 +283,7 @@ func newBackend(sim *core.Sim, spec *BackendSpec, reqs map[int]*reqState) (*back
 	} else {
 		b.provider.set(spec.Services)
 	}
-	var inner rpb.ServerReflectionServer = reflection.NewServer(reflection.ServerOptions{Services: b.provider})
+	var inner rpb.ServerReflectionServer = reflection.NewServer(reflection.ServerOptions{Services: b.provider, DescriptorResolver: schemaResolver{b.provider}})
 	if spec.Verbose {
 		inner = &verboseReflection{provider: b.provider}
 	}
